@@ -301,6 +301,7 @@ def verify_unit(loader, contract, registry, timeout_ms=20000, max_paths=MAX_PATH
         E = Engine(loader, dec, contracts=registry.contracts, loops=loops, unit=contract.target,
                    timeout_ms=timeout_ms, tables=registry.tables, inline=contract.inline, replay=replay)
         E.path_id = "".join(str(d) for d in dec)
+        E.inner_pending = getattr(base, "wraps", None)
         try:
             run_path(E, contract, fn, res)
             res.paths += 1
